@@ -257,6 +257,19 @@ class Inventory:
                 coll = origin_desc(strip(d[2][0]))
                 if self.len_guard(cdescs, coll, 1):
                     return self.g(site, "divisor len() under a non-emptiness test")
+                # `opt.filter(|v| !v.is_empty())` then Some(v): the collection is non-empty by construction
+                x = strip(d[2][0])
+                if x[0] == "proj" and x[2][:2] == ("@Some", ".0") and strip(x[1])[0] == "call" and short_callee(strip(x[1])[1]) == "filter" and "Option" in strip(x[1])[1]:
+                    from .cfgq import closure_id_of, returned_nodes as _rn
+                    cl = strip(x[1])[2][1] if len(strip(x[1])[2]) == 2 else None
+                    cid = closure_id_of(cl) if cl is not None else None
+                    if cid in self.prog.fns:
+                        cb = self.prog.fns[cid].body
+                        rns = _rn(cb)
+                        if len(rns) == 1:
+                            r = strip(rns[0][1])
+                            if r[0] == "un" and r[1] == "Not" and strip(r[2])[0] == "call" and short_callee(strip(r[2])[1]) == "is_empty":
+                                return self.g(site, "divisor len() of a collection kept only when non-empty (Option::filter(|v| !v.is_empty()))")
             for (n, tk) in cdescs:
                 if n[0] == "bin" and n[1] in ("Eq", "Ne", "Gt", "Lt"):
                     l, r = strip(n[2]), strip(n[3])
